@@ -82,6 +82,15 @@ def Pc.sent : Pc → Nat
   | .done n _ => n
   | _ => 0
 
+/-- the result `writeContext` hands to its caller, once the control state says it is determined: `(n, err == nil)` -/
+def Pc.outcome : Pc → Option (Nat × Bool)
+  | .cancelled => some (0, false)
+  | .wrote n ok => some (n, ok)
+  | .failing n => some (n, false)
+  | .closer n => some (n, false)
+  | .done n ok => some (n, ok)
+  | _ => none
+
 structure Cfg where
   lens : Nat → Nat          -- frame length of each writer (= request)
   coalesce : Bool           -- which of the two writers the connection uses
@@ -121,6 +130,13 @@ inductive Act where
   | shutQuit                     -- Conn.Close() from outside up to and including `c.cancel()` (socket still open)
   | flusherQuit                  -- coalescer: the flusher's select takes `<-w.quit` (possible at its select only)
 deriving Repr
+
+/-- the writer "takes the next one": the flusher takes a timer tick (a new batch), or a direct writer acquires the
+    semaphore. After a Write that ended torn this is exactly the excluded condition of known finding KF-C07-1. -/
+def Act.takesNext (coalesce : Bool) : Act → Bool
+  | .tick => true
+  | .enter _ => !coalesce
+  | _ => false
 
 def init : St :=
   { wire := [], pc := fun _ => .idle, owner := none, queue := [], todo := [], flushing := false, closing := false, closed := false,
